@@ -156,12 +156,51 @@ theorem neg_path_real {a P ε τ W S z r : ℝ} (ha : 0 < a) (hP0 : 0 < P) (hP :
     rw [abs_le]
     constructor <;> linarith [hS.1, hS.2]
 
+/-- `72·2⁻¹⁰⁷⁵ ≤ 10⁻³⁰⁰` -/
+theorem tiny72 : 72 * ((1:ℝ) / 2 ^ 1075) ≤ 1 / 10 ^ 300 := by
+  have e : (72:ℝ) * (1 / 2 ^ 1075) = 72 / 2 ^ 7 * (1 / 2 ^ 1068) := by
+    rw [show (1075:ℕ) = 7 + 1068 by norm_num, pow_add]; field_simp
+  rw [e]
+  have h1068 : (1:ℝ) / 2 ^ 1068 ≤ 1 / 10 ^ 300 := by
+    apply one_div_le_one_div_of_le (by positivity)
+    calc (10:ℝ) ^ 300 = (10 ^ 3) ^ 100 := by rw [← pow_mul]
+      _ ≤ (2 ^ 10) ^ 100 := by gcongr; norm_num
+      _ = 2 ^ 1000 := by rw [← pow_mul]
+      _ ≤ 2 ^ 1068 := pow_le_pow_right₀ (by norm_num) (by norm_num)
+  have h7 : (72:ℝ) / 2 ^ 7 ≤ 1 := by norm_num
+  have h0 : (0:ℝ) ≤ 1 / 2 ^ 1068 := by positivity
+  calc (72:ℝ) / 2 ^ 7 * (1 / 2 ^ 1068) ≤ 1 * (1 / 2 ^ 1068) := mul_le_mul_of_nonneg_right h7 h0
+    _ = 1 / 2 ^ 1068 := one_mul _
+    _ ≤ 1 / 10 ^ 300 := h1068
+
+/-- upper bound on the shifted argument of the negative path: `x + n·P` exceeds one turn by at most `|x|·10ε + 72τ` -/
+theorem neg_upper_real {x a P ε τ W : ℝ} (ha : 0 ≤ a) (hP : P ≤ 8) (hε0 : 0 < ε) (hε1 : ε ≤ 1 / 8)
+    (hτ0 : 0 < τ) (hale : a ≤ |x| + |x| * (8 * ε) + 32 * τ) (hWhi : W ≤ a + a * ε + P * τ + P)
+    (hxa : x ≤ -a + |x| * (8 * ε) + 32 * τ) :
+    x + W ≤ P + |x| * (10 * ε) + 72 * τ := by
+  have hx0 : 0 ≤ |x| := abs_nonneg x
+  have hxε : 0 ≤ |x| * ε := mul_nonneg hx0 (le_of_lt hε0)
+  have hε1' : ε ≤ 1 := by linarith
+  have hPτ : P * τ ≤ 8 * τ := mul_le_mul_of_nonneg_right hP (le_of_lt hτ0)
+  have hτε : τ * ε ≤ τ := by
+    calc τ * ε ≤ τ * 1 := mul_le_mul_of_nonneg_left hε1' (le_of_lt hτ0)
+      _ = τ := mul_one _
+  have h1 : a * ε ≤ (|x| + |x| * (8 * ε) + 32 * τ) * ε := mul_le_mul_of_nonneg_right hale (le_of_lt hε0)
+  have hεε : |x| * ε * ε ≤ |x| * ε * (1 / 8) := mul_le_mul_of_nonneg_left hε1 hxε
+  have e : (|x| + |x| * (8 * ε) + 32 * τ) * ε = |x| * ε + 8 * (|x| * ε * ε) + 32 * (τ * ε) := by ring
+  rw [e] at h1
+  have e2 : |x| * (10 * ε) = 10 * (|x| * ε) := by ring
+  have e3 : |x| * (8 * ε) = 8 * (|x| * ε) := by ring
+  rw [e2]; rw [e3] at hxa
+  linarith only [h1, hεε, hτε, hPτ, hxa, hWhi]
+
 /-- **`Angle::new(x, PI)` for a negative argument in rounded arithmetic**: the float total of the result is `x` plus a whole
     number `n` of turns (`4·(π_f/2)` each), to within the `1e-10` snap plus `(14·|x| + 46)·2⁻⁵³` -/
 theorem new_radians_total_neg {x : F} (hx : Fin x) (hx0 : val x < 0) (hb : -(2 ^ 41) ≤ val x) :
     (Angle.new x (FloatLike.pi : F)).Inv ∧
     ∃ n : ℕ, |Tq (Angle.new x (FloatLike.pi : F)) - (val x + (n : ℝ) * (4 * val (qp : F)))|
-      < val (e10 : F) + (14 * |val x| + 46) * (1 / 2 ^ 53) + 1 / 10 ^ 300 := by
+      < val (e10 : F) + (14 * |val x| + 46) * (1 / 2 ^ 53) + 1 / 10 ^ 300 ∧
+      val x + (n : ℝ) * (4 * val (qp : F)) ≤ 4 * val (qp : F) + |val x| * (10 * (1 / 2 ^ 53)) + 1 / 10 ^ 300 := by
   have hp3 := piV_gt3 (F := F); have hp4 := piV_lt4 (F := F)
   have hax : |val x| ≤ 2 ^ 41 := by rw [abs_of_neg hx0]; linarith
   have hpb : |val x| ≤ 10 ^ 200 := by
@@ -285,11 +324,23 @@ theorem new_radians_total_neg {x : F} (hx : Fin x) (hx0 : val x < 0) (hb : -(2 ^
       linarith
     have e14 : (14 * |val x| + 46) * (1 / 2 ^ 53) = |val x| * (8 * ε) + (6 * |val x| + 46) * ε := by rw [hε]; ring
     have hgoal : val x + (n : ℝ) * (4 * val (qp : F)) = val x + W := by rw [hW, hP]
-    rw [hgoal, e14, abs_lt]
-    constructor <;> linarith [hkey.1, hkey.2, hsnap.1, hsnap.2, hacc.1, hacc.2]
+    rw [hgoal]
+    refine ⟨by rw [e14, abs_lt]; constructor <;> linarith [hkey.1, hkey.2, hsnap.1, hsnap.2, hacc.1, hacc.2], ?_⟩
+    have hup := neg_upper_real (x := val x) (a := a) (P := P) (ε := ε) (τ := τ) (W := W) (le_of_lt ha0) hP8 hε0
+      (by linarith only [hε1, show (1:ℝ) / 10 ^ 15 ≤ 1 / 8 by norm_num]) hτ0 hale hWhi (by linarith only [hacc.1, ha])
+    have e10' : |val x| * (10 * (1 / 2 ^ 53)) = |val x| * (10 * ε) := by rw [hε]
+    rw [e10']
+    have h72 := tiny72
+    rw [← hτ] at h72
+    linarith only [hup, h72]
   · -- the raw total rounded to zero (|x| below the subnormal range): no turn is added
     push Not at hrn
-    refine ⟨0, ?_⟩
+    refine ⟨0, ?_, by
+      simp only [Nat.cast_zero, zero_mul, add_zero]
+      have : 0 ≤ |val x| * (10 * (1 / 2 ^ 53)) := mul_nonneg (abs_nonneg _) (by positivity)
+      have h300 : (0:ℝ) ≤ 1 / 10 ^ 300 := by positivity
+      have hq := val_qp (F := F)
+      linarith only [this, h300, hq, hp3, hx0]⟩
     have hnt : newTotal x (FloatLike.pi : F) = newRawTotal x (FloatLike.pi : F) := by
       unfold newTotal
       simp only
